@@ -1,0 +1,323 @@
+//go:build verif
+
+package client
+
+// Contracts for the govc verifier (/verif). This file contains comments only
+// and is compiled only with -tags verif; it adds no declarations.
+//
+// The client's packet handlers are verified like the broker's: sequential
+// functions against effect contracts over invocation-local ghost event state
+// (saved: session content, nsent/lastid: packets handed to the connection,
+// ncallback/cbmsg/cbfail: application callback invocations and whether one of
+// them returned an error).
+
+//@ ghost ncallback int
+//@ ghost cbmsg int
+//@ ghost cbfail bool
+//@ ghost nreset int
+
+//@ global ErrClientAlreadyConnecting [nonnil] ErrClientAlreadyConnecting != nil
+//@ global ErrClientNotConnected [nonnil] ErrClientNotConnected != nil
+//@ global ErrClientMissingID [nonnil] ErrClientMissingID != nil
+//@ global ErrClientConnectionDenied [nonnil] ErrClientConnectionDenied != nil
+//@ global ErrClientMissingPong [nonnil] ErrClientMissingPong != nil
+//@ global ErrClientExpectedConnack [nonnil] ErrClientExpectedConnack != nil
+//@ global ErrFailedSubscription [nonnil] ErrFailedSubscription != nil
+
+// ---------------------------------------------------------------- assumed interface / callback contracts
+//
+//@ interface Session.NextID() (id packet.ID)
+//@   ensures [nonzero] id != 0
+//@   modifies nothing
+//@ interface Session.SavePacket(dir session.Direction, pkt packet.Generic) (err error)
+//@   requires [pkt] pkt != nil
+//@   ensures [saved] err == nil ==> saved[dir][idOf(pkt)] == typecode(pkt)
+//@   ensures [others] err == nil ==> forall d int, i int {saved[d][i]} :: d != dir || i != idOf(pkt) ==> saved[d][i] == old(saved[d][i])
+//@   ensures [fail] err != nil ==> saved == old(saved)
+//@   modifies saved
+//@ interface Session.LookupPacket(dir session.Direction, id packet.ID) (pkt packet.Generic, err error)
+//@   ensures [found] err == nil ==> typecode(pkt) == saved[dir][id] && (pkt == nil <==> saved[dir][id] == 0)
+//@   ensures [obj] err == nil && pkt != nil ==> as(pkt, *packet.Publish) != nil && idOf(pkt) == id
+//@   modifies nothing
+//@ interface Session.DeletePacket(dir session.Direction, id packet.ID) (err error)
+//@   ensures [deleted] err == nil ==> saved[dir][id] == 0
+//@   ensures [others] err == nil ==> forall d int, i int {saved[d][i]} :: d != dir || i != id ==> saved[d][i] == old(saved[d][i])
+//@   ensures [fail] err != nil ==> saved == old(saved)
+//@   modifies saved
+//@ interface Session.AllPackets(dir session.Direction) (pkts []packet.Generic, err error)
+//@   ensures [stored] err == nil ==> nall == len(pkts) && forall i int {pkts[i]} :: 0 <= i && i < len(pkts) ==> pkts[i] != nil && typecode(pkts[i]) != 0 && as(pkts[i], *packet.Publish) != nil && saved[dir][idOf(pkts[i])] == typecode(pkts[i]) && idOf(pkts[i]) != 0
+//@   ensures [fresh] fresh(pkts)
+//@   modifies nall
+//@ interface Session.Reset() (err error)
+//@   ensures nreset == old(nreset) + 1
+//@   modifies saved, nreset
+//
+// The application callback: ghost bookkeeping of what it was given and whether
+// it ever returned an error.
+//@ functype "func(msg *packet.Message, err error) error" (msg *packet.Message, e error) (err error)
+//@   ensures ncallback == old(ncallback) + 1 && cbmsg == msg && (cbfail <==> (old(cbfail) || err != nil))
+//@   modifies ncallback, cbmsg, cbfail
+//@ functype "func(msg string)" (msg string)
+//@   modifies nothing
+
+// ---------------------------------------------------------------- Tracker (keep-alive bookkeeping, a monitor)
+//
+//@ guarded_by Tracker.mutex: Tracker.last, Tracker.pings, Tracker.timeout
+//@ func (t *Tracker) Reset()
+//@   requires [unlocked] held[t.mutex] == 0
+//@   ensures held == old(held)
+//@   modifies t.last, held[t.mutex]
+//@ func (t *Tracker) Window() (d time.Duration)
+//@   requires [unlocked] held[t.mutex] == 0
+//@   wrapping
+//@   ensures held == old(held)
+//@   modifies held[t.mutex]
+//@ func (t *Tracker) Ping()
+//@   requires [unlocked] held[t.mutex] == 0
+//@   ensures held == old(held)
+//@   modifies t.pings, held[t.mutex]
+//@ func (t *Tracker) Pong()
+//@   requires [unlocked] held[t.mutex] == 0
+//@   ensures held == old(held)
+//@   modifies t.pings, held[t.mutex]
+//@ func (t *Tracker) Pending() (p bool)
+//@   requires [unlocked] held[t.mutex] == 0
+//@   ensures held == old(held)
+//@   modifies held[t.mutex]
+
+// ---------------------------------------------------------------- Client
+//
+// Session invariants for the sessions this client writes: only QoS 2 PUBLISH
+// packets in the incoming direction.
+//@ spec pred incoming_ok() = forall i int {saved[0][i]} :: saved[0][i] == 0 || saved[0][i] == 3
+//
+//@ spec pred running(c *Client) = c.conn != nil && c.Session != nil && c.tracker != nil && c.futureStore != nil && c.config != nil && held[c.tracker.mutex] == 0
+//@ spec pred store_ok(c *Client) = c.futureStore != nil && held[c.futureStore.mutex] == 0 && stored_ok(c.futureStore)
+//@ spec pred cf_ok(c *Client) = c.connectFuture != nil ==> held[c.connectFuture.mutex] == 0 && attached_ok(c.connectFuture) && c.connectFuture.mutex != c.futureStore.mutex && c.connectFuture.mutex != c.tracker.mutex
+//@ spec pred locks_distinct(c *Client) = c.mutex != c.tracker.mutex && c.mutex != c.futureStore.mutex && (c.connectFuture != nil ==> c.connectFuture.mutex != c.mutex) && forall k packet.ID {c.futureStore.store[k]} :: has(c.futureStore.store, k) ==> c.futureStore.store[k].mutex != c.mutex && forall i int {c.futureStore.store[k].futures[i]} :: 0 <= i && i < len(c.futureStore.store[k].futures) ==> c.futureStore.store[k].futures[i].mutex != c.mutex
+//@ spec pred client_inv(c *Client) = running(c) && store_ok(c) && cf_ok(c) && c.futureStore.mutex != c.tracker.mutex
+//
+//@ writers Client.Session: New, (*Service).connect
+//@ writers Client.futureStore: New, (*Service).connect
+//@ writers Client.conn: (*Client).Connect
+//@ writers Client.tracker: (*Client).Connect
+//@ writers Client.started: (*Client).Connect
+//@ invokes Conn.Send: (*Client).send
+//@ invokes Session.SavePacket(0): (*Client).processPublish
+//@ invokes Session.SavePacket(1): (*Client).PublishMessage, (*Client).processPubrec
+//@ invokes Session.DeletePacket(0): (*Client).processPubrel
+//@ invokes Session.DeletePacket(1): (*Client).processSuback, (*Client).processUnsuback, (*Client).processPubackAndPubcomp
+//@ callsites (*Future).Complete: (*Client).PublishMessage, (*Client).processConnack, (*Client).processSuback, (*Client).processUnsuback, (*Client).processPubackAndPubcomp
+//@ callsites (*Store).Clear: (*Client).cleanup
+//
+//@ func (c *Client) send(pkt packet.Generic, async bool) (err error)
+//@   requires [client] running(c)
+//@   requires [pkt] pkt != nil && typecode(pkt) != 0 && as(pkt, *packet.Publish) != nil
+//@   requires [no-ack-after-reject] (istype(pkt, *packet.Puback) || istype(pkt, *packet.Pubrec) || istype(pkt, *packet.Pubcomp)) ==> !cbfail
+//@   requires [rec-after-save]      istype(pkt, *packet.Pubrec) ==> saved[0][idOf(pkt)] == 3
+//@   requires [release-before-comp] istype(pkt, *packet.Pubcomp) ==> saved[0][idOf(pkt)] == 0
+//@   requires [save-before-send]    istype(pkt, *packet.Publish) && as(pkt, *packet.Publish).Message.QOS > 0 ==> saved[1][idOf(pkt)] == 3 && idOf(pkt) != 0
+//@   requires [pubrel-after-save]   istype(pkt, *packet.Pubrel) ==> saved[1][idOf(pkt)] == 6
+//@   ensures [count]     err == nil ==> nsent[typecode(pkt)] == old(nsent[typecode(pkt)]) + 1 && nsentall == old(nsentall) + 1 && lastid[typecode(pkt)] == idOf(pkt)
+//@   ensures [others]    err == nil ==> forall t int {nsent[t]} :: t != typecode(pkt) ==> nsent[t] == old(nsent[t])
+//@   ensures [others-id] err == nil ==> forall t int {lastid[t]} :: t != typecode(pkt) ==> lastid[t] == old(lastid[t])
+//@   ensures [dup]       nnodup == old(nnodup) + (err == nil && istype(pkt, *packet.Publish) && !as(pkt, *packet.Publish).Dup ? 1 : 0)
+//@   ensures [fail]      err != nil ==> nsent == old(nsent) && nsentall == old(nsentall) && lastid == old(lastid)
+//@   ensures [unlocked]  held == old(held)
+//@   modifies nsent, nsentall, lastid, connack_sp, connack_code, nnodup, npubq, c.tracker.last, held[c.tracker.mutex]
+//
+// die: runs cleanup and the error callback at most once (sync.Once); the
+// error it returns is never nil, so every handler path through die ends the
+// processor.
+//@ func (c *Client) die(err error, closeConn bool) (res error)
+//@   requires [client] client_inv(c)
+//@   requires [err] err != nil
+//@   ensures [err] res != nil
+//@   ensures [no-send] nsentall == old(nsentall) && nsent == old(nsent)
+//@   ensures [started] tstarted == old(tstarted)
+//@   ensures [unlocked] held == old(held)
+//@   modifies c.state, nclose, saved, nreset, c.futureStore.store, any(future.Future.result), any(future.Future.done), fclosed, held, ncallback, cbmsg, cbfail
+//@ func (c *Client) die$1()
+//@   requires [captured] *c != nil && client_inv(*c)
+//@   ensures [err] old(*err) != nil ==> *err != nil
+//@   ensures [no-send] nsentall == old(nsentall) && nsent == old(nsent)
+//@   ensures [started] tstarted == old(tstarted)
+//@   ensures [unlocked] held == old(held)
+//@   modifies *err, (*c).state, nclose, saved, nreset, (*c).futureStore.store, any(future.Future.result), any(future.Future.done), fclosed, held, ncallback, cbmsg, cbfail
+//
+//@ func (c *Client) processPublish(publish *packet.Publish) (err error)
+//@   requires [client] client_inv(c)
+//@   requires [pkt] publish != nil && publish.Message.QOS <= 2 && (publish.Message.QOS > 0 ==> publish.ID != 0)
+//@   requires [no-reject-yet] !cbfail
+//@   ensures [qos1-ack-after-callback] err == nil && publish.Message.QOS == 1 ==> nsent[4] == old(nsent[4]) + 1 && lastid[4] == publish.ID && !cbfail && (c.Callback != nil ==> ncallback == old(ncallback) + 1 && cbmsg == publish.Message)
+//@   ensures [qos2-recorded-then-rec] err == nil && publish.Message.QOS == 2 ==> saved[0][publish.ID] == 3 && nsent[5] == old(nsent[5]) + 1 && lastid[5] == publish.ID && !cbfail
+//@   ensures [qos2-default-no-callback] err == nil && publish.Message.QOS == 2 && !c.earlyCallback ==> ncallback == old(ncallback)
+//@   ensures [qos0] err == nil && publish.Message.QOS == 0 ==> nsentall == old(nsentall) && (c.Callback != nil ==> ncallback == old(ncallback) + 1 && cbmsg == publish.Message)
+//@   ensures [incoming] err == nil && old(incoming_ok()) ==> incoming_ok()
+//@   ensures [inv] err == nil ==> client_inv(c) && (old(incoming_ok()) ==> incoming_ok()) && (old(outgoing_ok()) ==> outgoing_ok()) && (cbfail <==> old(cbfail)) && c.connectFuture == old(c.connectFuture)
+//@   modifies everything
+//
+//@ func (c *Client) processPubrel(id packet.ID) (err error)
+//@   requires [client] client_inv(c)
+//@   requires [incoming] incoming_ok()
+//@   requires [no-reject-yet] !cbfail
+//@   ensures [pubrel-always-comp] err == nil ==> nsent[7] == old(nsent[7]) + 1 && lastid[7] == id
+//@   ensures [delivered-once] err == nil && old(saved[0][id]) == 3 && c.Callback != nil && !c.earlyCallback ==> ncallback == old(ncallback) + 1 && !cbfail
+//@   ensures [released] err == nil ==> saved[0][id] == 0
+//@   ensures [inv] err == nil ==> client_inv(c) && (old(incoming_ok()) ==> incoming_ok()) && (old(outgoing_ok()) ==> outgoing_ok()) && (cbfail <==> old(cbfail)) && c.connectFuture == old(c.connectFuture)
+//@   modifies everything
+//
+//@ func (c *Client) processPubrec(id packet.ID) (err error)
+//@   requires [client] client_inv(c)
+//@   ensures [pubrel] err == nil ==> saved[1][id] == 6 && nsent[6] == old(nsent[6]) + 1 && lastid[6] == id
+//@   ensures [inv] err == nil ==> client_inv(c) && (old(incoming_ok()) ==> incoming_ok()) && (old(outgoing_ok()) ==> outgoing_ok()) && (cbfail <==> old(cbfail)) && c.connectFuture == old(c.connectFuture)
+//@   modifies everything
+//
+//@ func (c *Client) processPubackAndPubcomp(id packet.ID) (err error)
+//@   requires [client] client_inv(c)
+//@   ensures [released] err == nil ==> saved[1][id] == 0
+//@   ensures [inv] err == nil ==> client_inv(c) && (old(incoming_ok()) ==> incoming_ok()) && (old(outgoing_ok()) ==> outgoing_ok()) && (cbfail <==> old(cbfail)) && c.connectFuture == old(c.connectFuture)
+//@   modifies everything
+
+// ---------------------------------------------------------------- futures and the API functions
+//
+//@ spec pred outgoing_ok() = forall i int {saved[1][i]} :: saved[1][i] == 0 || saved[1][i] == 3 || saved[1][i] == 6 || saved[1][i] == 8 || saved[1][i] == 10
+//
+// An acknowledgement resolves exactly the future registered under its id and
+// releases the stored packet; an acknowledgement for an unknown id resolves
+// nothing.
+//@ func (c *Client) processPubackAndPubcomp(id packet.ID) (err error)
+//@   requires [client] client_inv(c)
+//@   ensures [released] err == nil ==> saved[1][id] == 0
+//@   ensures [completed] err == nil && old(has(c.futureStore.store, id)) ==> old(c.futureStore.store[id]).done && !has(c.futureStore.store, id)
+//@   modifies everything
+//@ func (c *Client) processSuback(suback *packet.Suback) (err error)
+//@   requires [client] client_inv(c) && suback != nil
+//@   ensures [released] err == nil ==> saved[1][suback.ID] == 0
+//@   ensures [completed] err == nil && old(has(c.futureStore.store, suback.ID)) ==> old(c.futureStore.store[suback.ID]).done && !has(c.futureStore.store, suback.ID)
+//@   ensures [inv] err == nil ==> client_inv(c) && (old(incoming_ok()) ==> incoming_ok()) && (old(outgoing_ok()) ==> outgoing_ok()) && (cbfail <==> old(cbfail)) && c.connectFuture == old(c.connectFuture)
+//@   modifies everything
+//@   loop 1 invariant [range] 0 <= rangeindex + 1 && rangeindex + 1 <= len(suback.ReturnCodes)
+//@ func (c *Client) processUnsuback(unsuback *packet.Unsuback) (err error)
+//@   requires [client] client_inv(c) && unsuback != nil
+//@   ensures [released] err == nil ==> saved[1][unsuback.ID] == 0
+//@   ensures [completed] err == nil && old(has(c.futureStore.store, unsuback.ID)) ==> old(c.futureStore.store[unsuback.ID]).done && !has(c.futureStore.store, unsuback.ID)
+//@   ensures [inv] err == nil ==> client_inv(c) && (old(incoming_ok()) ==> incoming_ok()) && (old(outgoing_ok()) ==> outgoing_ok()) && (cbfail <==> old(cbfail)) && c.connectFuture == old(c.connectFuture)
+//@   modifies everything
+//
+// processConnack: on an accepted CONNACK everything still recorded in the
+// session is retransmitted, publishes flagged duplicate.
+//@ func (c *Client) processConnack(connack *packet.Connack) (err error)
+//@   requires [client] client_inv(c) && connack != nil && c.connectFuture != nil
+//@   requires [outgoing] outgoing_ok()
+//@   ensures [ignored] old(c.state) != 1 ==> err == nil && nsentall == old(nsentall) && c.state == old(c.state)
+//@   ensures [resend-all] err == nil && old(c.state) == 1 ==> c.state == 3 && c.connectFuture.done && nsentall == old(nsentall) + nall && nnodup == old(nnodup) && saved == old(saved)
+//@   ensures [inv] err == nil ==> client_inv(c) && (old(incoming_ok()) ==> incoming_ok()) && (old(outgoing_ok()) ==> outgoing_ok()) && (cbfail <==> old(cbfail)) && c.connectFuture == old(c.connectFuture)
+//@   modifies everything
+//@   loop 1 invariant [resent] 0 <= rangeindex + 1 && rangeindex + 1 <= len(packets) && nall == len(packets) && nsentall == old(nsentall) + rangeindex + 1 && nnodup == old(nnodup) && saved == old(saved) && client_inv(c) && held == old(held) && c.state == 3 && c.connectFuture.done && old(c.state) == 1
+//@   loop 1 invariant [stored] forall i int {packets[i]} :: 0 <= i && i < len(packets) ==> packets[i] != nil && typecode(packets[i]) != 0 && as(packets[i], *packet.Publish) != nil && saved[1][idOf(packets[i])] == typecode(packets[i]) && idOf(packets[i]) != 0
+//
+// cleanup: the client ends up disconnected and - unless the store is
+// protected (service mode) - every registered future is resolved.
+//@ func (c *Client) cleanup(err error, closeConn bool, possiblyClosed bool) (res error)
+//@   requires [client] c.conn != nil && c.Session != nil && store_ok(c) && cf_ok(c)
+//@   ensures [state] c.state == 5
+//@   ensures [err] err != nil ==> res == err
+//@   ensures [futures-resolved] !old(c.futureStore.protected) ==> len(c.futureStore.store) == 0 && forall k packet.ID {old(c.futureStore.store)[k]} :: old(has(c.futureStore.store, k)) ==> old(c.futureStore.store)[k].done
+//@   ensures [connect-future] old(c.state) < 2 && c.connectFuture != nil ==> c.connectFuture.done
+//@   ensures [unlocked] held == old(held)
+//@   ensures [started] tstarted == old(tstarted)
+//@   modifies c.state, nclose, saved, nreset, c.futureStore.store, any(future.Future.result), any(future.Future.done), fclosed, held
+//
+// PublishMessage: a QoS>0 publish is recorded before it is sent and its
+// future is still open when the call returns; a QoS 0 publish is complete
+// once it was handed to the connection.
+//@ func (c *Client) PublishMessage(msg *packet.Message) (f GenericFuture, err error)
+//@   requires [unlocked] held[c.mutex] == 0
+//@   requires [msg] msg != nil && msg.QOS <= 2
+//@   requires [client] c.state == 3 ==> client_inv(c) && locks_distinct(c)
+//@   ensures [not-connected] old(c.state) != 3 ==> err != nil && nsentall == old(nsentall) && saved == old(saved)
+//@   ensures [recorded-then-sent] err == nil && msg.QOS > 0 ==> nsent[3] == old(nsent[3]) + 1 && lastid[3] != 0 && saved[1][lastid[3]] == 3
+//@   ensures [future-open] err == nil && msg.QOS > 0 ==> f != nil && !as(f, *future.Future).done && has(c.futureStore.store, lastid[3]) && c.futureStore.store[lastid[3]] == as(f, *future.Future)
+//@   ensures [qos0-complete] err == nil && msg.QOS == 0 ==> f != nil && as(f, *future.Future).done && nsent[3] == old(nsent[3]) + 1
+//@   ensures [released] held[c.mutex] == 0
+//@   modifies everything
+//
+// end / Close / Disconnect: the processor goroutine is waited for only if it
+// was started (object invariant: started ==> the tomb has a goroutine).
+//@ func (c *Client) end(err error, possiblyClosed bool) (res error)
+//@   requires [client] c.conn != nil && c.Session != nil && store_ok(c) && cf_ok(c)
+//@   requires [invariant] c.started ==> tstarted[c.tomb] > 0
+//@   ensures [state] c.state == 5
+//@   ensures [unlocked] held == old(held)
+//@   modifies everything
+
+// Object invariant of a Client (established by Connect, the only writer of
+// Client.started): started ==> the processor goroutine has been started on
+// the tomb; end waits for the tomb only if started, so Close and Disconnect
+// return.
+//@ spec pred api_inv(c *Client) = (c.started ==> tstarted[c.tomb] > 0) && (c.state >= 1 ==> c.conn != nil && c.Session != nil && store_ok(c) && cf_ok(c)) && c.futureStore != nil && c.Session != nil
+//
+//@ func (c *Client) Close() (err error)
+//@   requires [unlocked] held[c.mutex] == 0
+//@   requires [invariant] api_inv(c) && store_ok(c)
+//@   ensures [released] held[c.mutex] == 0
+//@   ensures [closed] old(c.state) >= 1 ==> c.state == 5
+//@   modifies everything
+//@ func (c *Client) Disconnect(timeout []time.Duration) (err error)
+//@   requires [unlocked] held[c.mutex] == 0
+//@   requires [invariant] api_inv(c) && (c.state == 3 ==> client_inv(c) && locks_distinct(c))
+//@   ensures [released] held[c.mutex] == 0
+//@   ensures [closed] old(c.state) == 3 ==> c.state == 5
+//@   modifies everything
+//
+//@ func (c *Client) Connect(config *Config) (f ConnectFuture, err error)
+//@   requires [config] config != nil
+//@   requires [unlocked] held[c.mutex] == 0
+//@   requires [new] c.futureStore != nil && c.Session != nil && (c.state == 0 ==> store_ok(c) && c.connectFuture == nil && !c.started)
+//@   ensures [released] held[c.mutex] == 0
+//@   ensures [invariant] old(c.state) == 0 ==> (c.started ==> tstarted[c.tomb] > 0)
+//@   ensures [started] err == nil ==> c.started
+//@   ensures [future] err == nil ==> f != nil && c.state == 1
+//@   modifies everything
+//
+// Accessors of the wrapped futures never panic, whatever the state of the
+// future (cancelled futures carry a nil result).
+//@ func (f *connectFuture) SessionPresent() (sp bool)
+//@   requires [future] f.Future != nil && held[f.Future.mutex] == 0
+//@   modifies held
+//@ func (f *connectFuture) ReturnCode() (code packet.ConnackCode)
+//@   requires [future] f.Future != nil && held[f.Future.mutex] == 0
+//@   modifies held
+//@ func (f *subscribeFuture) ReturnCodes() (codes []packet.QOS)
+//@   requires [future] f.Future != nil && held[f.Future.mutex] == 0
+//@   modifies held
+//
+//@ interface Dialer.Dial(urlString string) (conn transport.Conn, err error)
+//@   ensures [conn] err == nil ==> conn != nil
+//@   modifies nothing
+//@ func NewTracker(timeout time.Duration) (t *Tracker)
+//@   ensures t != nil && fresh(t) && held[t.mutex] == 0
+//@   modifies nothing
+
+// processor: the first packet must be the CONNACK; afterwards every packet is
+// dispatched to its handler with the client invariant intact.
+//@ func (c *Client) processor() (err error)
+//@   requires [client] client_inv(c) && c.connectFuture != nil && incoming_ok() && outgoing_ok() && !cbfail
+//@   modifies everything
+//@   loop 1 invariant [inv] client_inv(c) && c.connectFuture != nil && incoming_ok() && outgoing_ok() && !cbfail
+//
+//@ func (c *Client) SubscribeMultiple(subscriptions []packet.Subscription) (f SubscribeFuture, err error)
+//@   requires [unlocked] held[c.mutex] == 0
+//@   requires [client] c.state == 3 ==> client_inv(c) && locks_distinct(c)
+//@   ensures [not-connected] old(c.state) != 3 ==> err != nil && nsentall == old(nsentall)
+//@   ensures [sent] err == nil ==> nsent[8] == old(nsent[8]) + 1 && lastid[8] != 0 && has(c.futureStore.store, lastid[8]) && !c.futureStore.store[lastid[8]].done
+//@   ensures [released] held[c.mutex] == 0
+//@   modifies everything
+//@ func (c *Client) UnsubscribeMultiple(topics []string) (f GenericFuture, err error)
+//@   requires [unlocked] held[c.mutex] == 0
+//@   requires [client] c.state == 3 ==> client_inv(c) && locks_distinct(c)
+//@   ensures [not-connected] old(c.state) != 3 ==> err != nil && nsentall == old(nsentall)
+//@   ensures [sent] err == nil ==> nsent[10] == old(nsent[10]) + 1 && lastid[10] != 0 && has(c.futureStore.store, lastid[10]) && !c.futureStore.store[lastid[10]].done
+//@   ensures [released] held[c.mutex] == 0
+//@   modifies everything
